@@ -91,7 +91,8 @@ pub fn leading_word(r: &R) -> Option<&str> {
 /// (真<numbers>值)
 pub fn han_item_lookalike_suffix(name: &str) -> bool {
     for k in ["过去", "现在", "将来"] {
-        if name.ends_with(k) && name != k {
+        // the word may also BE the stamp form: the lexical parser then segments the whole word away
+        if name.ends_with(k) {
             return true;
         }
     }
